@@ -141,24 +141,6 @@ theorem query_spelling_roundtrip (ps : List (List QByte × List QByte)) (h : ∀
     parseQueryRaw (spellQuery ps) = ps.map fun p => (qMeant p.1, qMeant p.2) :=
   parseQueryRaw_spell ps h
 
-theorem qCanon_ok (bs : Bytes) (h : IsBytes bs) : ∀ c ∈ qCanon bs, c.okKey = true := by
-  intro c hc
-  simp only [qCanon, List.mem_map] at hc
-  obtain ⟨b, hb, rfl⟩ := hc
-  split
-  · rename_i hu
-    simp only [unreserved, Bool.or_eq_true, Bool.and_eq_true, decide_eq_true_eq, beq_iff_eq] at hu
-    simp only [QByte.okKey, Bool.and_eq_true, bne_iff_ne, ne_eq]
-    omega
-  · simp [QByte.okKey, h b hb]
-
-theorem qMeant_qCanon (bs : Bytes) : qMeant (qCanon bs) = bs := by
-  induction bs with
-  | nil => rfl
-  | cons b bs ih =>
-    simp only [qCanon, qMeant, List.map_cons] at ih ⊢
-    rw [ih]; split <;> rfl
-
 /-- **C09 (query clause, byte level).**  `parseQuery ∘ encodeQuery = id` for all
 byte strings as keys and values, reserved characters percent-encoded. -/
 theorem query_roundtrip (kvs : List (Bytes × Bytes)) (h : ∀ kv ∈ kvs, IsBytes kv.1 ∧ IsBytes kv.2) :
@@ -295,11 +277,6 @@ theorem boundary_found (ty sub : Bytes) (before after : List ParamSpelling) (bp 
     (hbn : lower bp.name = sBoundary) (hb : bp.ok = true) :
     boundaryOf (spellContentType ty sub (before ++ bp :: after)) = some bp.value :=
   boundaryOf_spell ty sub before after bp hty hsub hbefore hafter hbn hb
-
-theorem bchar_quotable (c : Nat) (h : isBChar c = true) : (isQuotable c && c != 34) = true := by
-  simp only [isBChar, Bool.or_eq_true, Bool.and_eq_true, decide_eq_true_eq, beq_iff_eq] at h
-  simp only [isQuotable, Bool.and_eq_true, decide_eq_true_eq, bne_iff_ne, ne_eq]
-  omega
 
 /-- Every RFC 2046 boundary can be sent quoted; those made of token characters
 also unquoted.  Either way it is found. -/
